@@ -31,6 +31,14 @@ CLAIMS = {
     "C15": ("Lean theorems: mark_test_pending inserts at the front of the pool; per index #completed + #crash-reported = 1 + #re-queued when the ledger is empty; "
             "unsupported modes raise NotImplementedError",
             "ledger invariant with re-queue ghost (Lean 4) ; differential correspondence with markPending ops"),
+    "C13": ("Lean theorems over every option record: -n0 is a plain run; -nK gives min(K, maxprocesses) popen workers in load mode unless a mode is named; "
+            "distribution iff a mode and an environment; --pdb is rejected exactly when it meets distribution and turns -n auto/logical into 0; --collect-only never installs the "
+            "distributed session; after the worker's setup_config nothing distributes, loops or debugs; 'N*spec' expands to N copies (int(str(N)) = N proved)",
+            "case analysis over the option record, digit-string round trip by induction (Lean 4) ; differential correspondence on real pytest Config objects (argv, addopts, PYTEST_ADDOPTS) incl. worker-side setup"),
+    "C18": ("Lean theorems for every root list (nested, duplicated), cache and file system: StatRecorder.check reports a change iff the watched-file map differs from the cache; "
+            "the new cache is the watched-file map; hence a poll reports exactly the creations/deletions/mtime-or-size changes since the previous poll and polling twice reports nothing; "
+            "the failure memory is the first-occurrence de-duplication of the run's failing ids, unchanged when collection failed",
+            "fold invariant over the directory walk, finite-map extensionality (Lean 4) ; differential correspondence on a real scratch tree and the real RemoteControl.loop_once"),
 }
 
 NOT_YET = {}
